@@ -4,6 +4,7 @@ package openflow13
 
 import (
 	"encoding/binary"
+	"errors"
 
 	"github.com/contiv/libOpenflow/common"
 	log "github.com/sirupsen/logrus"
@@ -197,6 +198,9 @@ func (b *Bucket) UnmarshalBinary(data []byte) error {
 		a, err := DecodeAction(data[n:])
 		if err != nil {
 			return err
+		}
+		if a.Len() == 0 {
+			return errors.New("The action list contains an action of size 0.")
 		}
 		b.Actions = append(b.Actions, a)
 		n += int(a.Len())
